@@ -294,6 +294,8 @@ class Engine(ExprMixin, StmtMixin, CallMixin, SpecMixin):
                 for t in (n.targets if isinstance(n, _ast.Assign) else [n.target]):
                     if kind == "store[]" and isinstance(t, _ast.Subscript) and isinstance(t.value, _ast.Attribute) and t.value.attr == attr:
                         sites.append(t)
+                    if kind == "store[]" and isinstance(t, _ast.Subscript) and isinstance(t.value, _ast.Name) and t.value.id == attr:
+                        sites.append(t)
                     if kind == "store" and isinstance(t, _ast.Attribute) and t.attr == attr:
                         sites.append(t)
         sites.sort(key=lambda t: (t.lineno, t.col_offset))
